@@ -316,8 +316,20 @@ Fixpoint chan_view (cd : tcodec) (ops : list op) (tr : list (list obs)) : option
   | _, _ => None
   end.
 
+(* THE FLUSH CLAUSE.  `OFrame b` is what reached the WIRE (not a staging buffer inside the byte
+   stream) by the time the transport's poll_flush returned Ready(Ok) after a send: it must be one
+   complete frame -- a 4-byte big-endian length and exactly that many payload bytes.  (That the
+   frames then arrive complete and in order is the rest of the monitor.) *)
+Definition frame_shape_ok (b : bytes) : bool :=
+  match b with
+  | a :: b' :: c :: d :: p => N.eqb (be32_val a b' c d) (blen p)
+  | _ => false
+  end.
+Definition frames_on_wire (tr : list (list obs)) : bool :=
+  forallb (forallb (fun o => match o with OFrame b => frame_shape_ok b | _ => true end)) tr.
+
 Definition wire_strict_ok (c : cfg) (ops : list op) (tr : list (list obs)) : bool :=
-  if is_framed (codec c) then framed_strict_ok c ops tr
+  if is_framed (codec c) then framed_strict_ok c ops tr && frames_on_wire tr
   else match chan_view (codec c) ops tr with
        | Some (co, ct) => fifo_ok wmsg_eqb co ct
        | None => false
@@ -345,8 +357,82 @@ Definition framed_ok (c : cfg) (ops : list op) (tr : list (list obs)) : bool :=
   end.
 
 Definition c15_ok (c : cfg) (ops : list op) (tr : list (list obs)) : bool :=
-  if is_framed (codec c) then framed_ok c ops tr
+  if is_framed (codec c) then framed_ok c ops tr && frames_on_wire tr
   else match chan_view (codec c) ops tr with
        | Some (co, ct) => fifo_ok wmsg_eqb co ct
        | None => false
        end.
+
+(* ------------------------------------------------------------------------------------------ *)
+(* The byte stream UNDER a framed transport, when it buffers internally (BufWriter- or TLS-like).
+   `step` above says "a Send puts frame p on the wire": this is the layer that justifies it.
+
+     bstream   the stream: bytes accepted by poll_write go to `b_stage`; poll_flush moves the stage
+               to `b_wire`; only the wire is what the peer can read; bytes still in the stage when
+               the writer is dropped are LOST (as with BufWriter).
+     wside     the writing side of Framed<_, LengthDelimitedCodec> + the stream + what remains of
+               the script: `w_wr` the sizes the next poll_write calls accept (0 = Pending; an
+               exhausted script accepts everything), `w_fl` how many more times the stream's
+               poll_flush answers Pending before it completes.
+     poll_flush  one call of Transport::poll_flush = FramedImpl::poll_flush: write the codec buffer
+               out (poll_write until it is empty, Pending as soon as the stream says so), THEN
+               flush the stream; Ready only when both are done.
+     poll_flush_skipping  the variant that returns Ready at once when the codec buffer is empty
+               (seeded change C15-flush-skips-stream-flush), for the refutation lemma. *)
+Record bstream := { b_stage : bytes; b_wire : bytes }.
+Record wside := { w_buf : bytes; w_io : bstream; w_wr : list nat; w_fl : nat }.
+Inductive pollres := PReady | PPending.
+
+(* the `while !buffer.is_empty()` loop of FramedImpl::poll_flush *)
+Fixpoint write_out (fuel : nat) (w : wside) : pollres * wside :=
+  match fuel with
+  | O => (PPending, w)
+  | S f =>
+    match w_buf w with
+    | [] => (PReady, w)
+    | _ :: _ =>
+      match w_wr w with
+      | O :: r => (PPending, {| w_buf := w_buf w; w_io := w_io w; w_wr := r; w_fl := w_fl w |})
+      | S k :: r =>
+        write_out f {| w_buf := skipn (S k) (w_buf w);
+                       w_io := {| b_stage := b_stage (w_io w) ++ firstn (S k) (w_buf w); b_wire := b_wire (w_io w) |};
+                       w_wr := r; w_fl := w_fl w |}
+      | [] =>
+        write_out f {| w_buf := [];
+                       w_io := {| b_stage := b_stage (w_io w) ++ w_buf w; b_wire := b_wire (w_io w) |};
+                       w_wr := []; w_fl := w_fl w |}
+      end
+    end
+  end.
+
+(* AsyncWrite::poll_flush of the stream *)
+Definition stream_flush (w : wside) : pollres * wside :=
+  match w_fl w with
+  | S k => (PPending, {| w_buf := w_buf w; w_io := w_io w; w_wr := w_wr w; w_fl := k |})
+  | O => (PReady, {| w_buf := w_buf w;
+                     w_io := {| b_stage := []; b_wire := b_wire (w_io w) ++ b_stage (w_io w) |};
+                     w_wr := w_wr w; w_fl := O |})
+  end.
+
+Definition poll_flush (w : wside) : pollres * wside :=
+  match write_out (S (length (w_buf w))) w with
+  | (PPending, w') => (PPending, w')
+  | (PReady, w') => stream_flush w'
+  end.
+
+Definition poll_flush_skipping (w : wside) : pollres * wside :=
+  match w_buf w with [] => (PReady, w) | _ :: _ => poll_flush w end.
+
+(* Sink::start_send: the frame is appended to the codec buffer *)
+Definition start_send_frame (w : wside) (f : bytes) : wside :=
+  {| w_buf := w_buf w ++ f; w_io := w_io w; w_wr := w_wr w; w_fl := w_fl w |}.
+
+(* the caller polls until Ready *)
+Fixpoint flush_until_ready (polls : nat) (w : wside) : option wside :=
+  match polls with
+  | O => None
+  | S n => match poll_flush w with
+           | (PReady, w') => Some w'
+           | (PPending, w') => flush_until_ready n w'
+           end
+  end.
